@@ -6,7 +6,7 @@ From Coq Require Import ZArith Lia List.
 From LP Require Import Scalar UPoly MPoly Sylvester RefAlg.
 Set Warnings "-notation-overridden,-ambiguous-paths".
 From mathcomp Require Import all_ssreflect all_fingroup all_algebra all_real_closed.
-From mathcomp Require Import ssrZ zify.
+From mathcomp Require Import ssrZ zify ring.
 From CoqEAL Require Import minor.
 Set Warnings "notation-overridden,ambiguous-paths".
 From LP Require Import UPolySpec SylvesterProofs RefAlgDet RefAlgSpec RefAlgLoops RefAlgOps.
@@ -351,3 +351,147 @@ by rewrite horner_comp hornerD hornerN hornerC hornerX addrAC subrr add0r; exact
 Qed.
 
 End AnnRoots.
+
+(* ---------------------------------------------------------------- annihilator of a product *)
+(* t^n q(z / t), n = deg q, as a polynomial in t over Z[z]: the coefficient of t^j is q_(n-j) z^(n-j) *)
+Definition Bmul (Q : {poly Z}) : {poly {poly Z}} :=
+  \poly_(j < size Q) (Q`_((size Q).-1 - j) *: 'X^((size Q).-1 - j)).
+
+Lemma BP_map_iota (g : nat -> seq Z) m : BP (map g (iota 0 m)) = \poly_(j < m) Poly (g j).
+Proof.
+elim: m => [|m IH]; first by rewrite BP_nil poly_def big_ord0.
+rewrite -[in iota _ _]addn1 iotaD add0n /= map_cat /= cats1 BP_rcons IH size_map size_iota.
+by rewrite !poly_def big_ord_recr /= mul_polyC.
+Qed.
+
+Lemma BP_map_pnorm l : BP (map pnorm l) = BP l.
+Proof. by rewrite /BP -map_comp; congr Poly; apply: eq_map => x /=; rewrite Poly_pnorm. Qed.
+
+Lemma ann_mul_res (p q : seq Z) : Poly p != 0 -> Poly q != 0 -> Bmul (Poly q) != 0 ->
+  exists k : nat, Poly (ann_mul p q) = (-1) ^+ k * resultant (Poly p)^:P (Bmul (Poly q)).
+Proof.
+move=> p0 q0 nzB; rewrite /ann_mul.
+set b := List.map _ _.
+have Eb : BP b = Bmul (Poly q).
+  rewrite /b !List_map_map BP_map_pnorm List_seq_iota BP_map_iota /Bmul.
+  have -> : (Nat.pred (length (pnorm q))).+1 = size (Poly q).
+    by rewrite -size_Poly_pnorm prednK // size_poly_gt0.
+  apply: eq_poly => j.
+  rewrite Poly_pshift Poly_cons0 /= mul0r addr0 mul_polyC List_nth_nth -coef_Poly_nth Poly_pnorm.
+  by rewrite size_Poly_pnorm.
+have EB : BP (bp_trim b) = Bmul (Poly q) by rewrite BP_bp_trim.
+have nzB' : BP b != 0 by rewrite Eb.
+rewrite (bires_resultant (last_bp_of_upoly p0) (last_bp_trim nzB')) EB BP_bp_of_upoly.
+by eexists.
+Qed.
+
+Lemma coef_swap_Bmul Q i :
+  (swapXY (Bmul Q))`_i = if (i <= (size Q).-1)%N then Q`_i *: 'X^((size Q).-1 - i) else 0.
+Proof.
+apply/polyP => j; rewrite coef_swapXY coef_poly.
+case: (ltnP j (size Q)) => Hj.
+  rewrite coefZ coefXn; case: (leqP i (size Q).-1) => Hi; last first.
+    by rewrite coef0 (_ : (i == _) = false) ?mulr0 //; apply/eqP; lia.
+  rewrite coefZ coefXn; case: (altP (i =P _)) => [Ei|Hne].
+    have -> : (j == ((size Q).-1 - i)%N) = true by apply/eqP; lia.
+    by rewrite Ei.
+  have -> : (j == ((size Q).-1 - i)%N) = false by apply/eqP => Ej; move/eqP: Hne; apply; lia.
+  by rewrite !mulr0.
+rewrite coef0; case: ifP => Hi; last by rewrite coef0.
+rewrite coefZ coefXn.
+case: (posnP (size Q)) => [s0|spos]; first by rewrite [Q`_i]nth_default ?s0 // scale0r coef0.
+have -> : (j == ((size Q).-1 - i)%N) = false by apply/eqP; lia.
+by rewrite mulr0.
+Qed.
+
+Lemma coef_neq0_size (D : ringType) (u : {poly D}) i : u`_i != 0 -> (i < size u)%N.
+Proof. by move=> H; rewrite ltnNge; apply/negP => Hs; move/eqP: H; apply; exact: nth_default. Qed.
+
+Lemma lead_swap_Bmul Q : Q != 0 -> lead_coef (swapXY (Bmul Q)) = (lead_coef Q)%:P.
+Proof.
+move=> Q0; set W := swapXY _.
+have Wn : W`_(size Q).-1 = (lead_coef Q)%:P.
+  by rewrite coef_swap_Bmul leqnn subnn expr0 alg_polyC lead_coefE.
+have sW : size W = (size Q).-1.+1.
+  apply/eqP; rewrite eqn_leq; apply/andP; split.
+    by apply/leq_sizeP => i Hi; rewrite coef_swap_Bmul leqNgt Hi.
+  by apply: coef_neq0_size; rewrite Wn polyC_eq0 lead_coef_eq0.
+by rewrite lead_coefE sW.
+Qed.
+
+Lemma Bmul_neq0 Q : Q != 0 -> Bmul Q != 0.
+Proof.
+by move=> Q0; rewrite -swapXY_eq0 -lead_coef_eq0 lead_swap_Bmul // polyC_eq0 lead_coef_eq0.
+Qed.
+
+Theorem ann_mul_neq0 (p q : seq Z) : Poly p != 0 -> Poly q != 0 -> Poly (ann_mul p q) != 0.
+Proof.
+move=> p0 q0; have [k ->] := ann_mul_res p0 q0 (Bmul_neq0 q0).
+rewrite mulf_neq0 ?signr_eq0 //.
+apply: (@resultant_constP_neq0 _ _ _ (lead_coef (Poly q))) => //; first by rewrite lead_coef_eq0.
+exact: lead_swap_Bmul.
+Qed.
+
+Section AnnRoots2.
+Variable R : rcfType.
+Local Notation zr := (@zr R).
+Local Notation pr := (@pr R).
+Local Notation zrm := (zr_rmorphism R).
+Local Notation ev s := (horner_eval s \o map_poly zrm).
+
+Lemma horner_pr_sum (Q : {poly Z}) (b : R) : (map_poly zr Q).[b] = \sum_(k < size Q) zr Q`_k * b ^+ k.
+Proof. by rewrite /map_poly horner_poly. Qed.
+
+Lemma map_ev_Bmul (s : R) (Q : {poly Z}) :
+  map_poly (ev s) (Bmul Q) = \poly_(j < size Q) (zr Q`_((size Q).-1 - j) * s ^+ ((size Q).-1 - j)).
+Proof.
+apply/polyP => j; rewrite coef_map coef_poly /= [in RHS]coef_poly; case: ifP => _.
+  by rewrite map_polyZ /= map_polyXn /horner_eval hornerZ hornerXn.
+by rewrite rmorph0 /horner_eval horner0.
+Qed.
+
+Lemma horner_ev_Bmul (a b : R) (Q : {poly Z}) :
+  (map_poly (ev (a * b)) (Bmul Q)).[a] = a ^+ (size Q).-1 * (map_poly zr Q).[b].
+Proof.
+rewrite map_ev_Bmul horner_poly horner_pr_sum mulr_sumr.
+rewrite [RHS](reindex_inj rev_ord_inj) /=; apply: eq_bigr => j _.
+have -> : (size Q - j.+1)%N = ((size Q).-1 - j)%N by lia.
+have Hj : (j <= (size Q).-1)%N by rewrite -ltnS (leq_trans (ltn_ord j)) // leqSpred.
+have -> : a ^+ (size Q).-1 = a ^+ ((size Q).-1 - j) * a ^+ j by rewrite -exprD subnK.
+rewrite exprMn.
+move: (zr _) (a ^+ (_ - _)) (b ^+ _) (a ^+ j) => x y z w; ring.
+Qed.
+
+Lemma size_Bmul_gt1 (Q : {poly Z}) (b : R) :
+  Q != 0 -> b != 0 -> (map_poly zr Q).[b] = 0 -> (1 < size (Bmul Q))%N.
+Proof.
+move=> Q0 b0 Hb; rewrite ltnNge; apply/negP => Hs.
+have sQ : size Q = (size Q).-1.+1 by rewrite prednK // size_poly_gt0.
+have Hz (k : nat) : (k < (size Q).-1)%N -> Q`_k = 0.
+  move=> Hk; have Hj : (0 < (size Q).-1 - k)%N by lia.
+  have := leq_sizeP _ _ Hs _ Hj; rewrite coef_poly.
+  have -> : ((size Q).-1 - k < size Q)%N by lia.
+  have -> : ((size Q).-1 - ((size Q).-1 - k))%N = k by lia.
+  by move/(congr1 (fun u : {poly Z} => u`_k)); rewrite coefZ coefXn eqxx mulr1 coef0.
+move: Hb; rewrite horner_pr_sum sQ big_ord_recr /= big1 ?add0r; last first.
+  by move=> k _; rewrite Hz ?zr0 ?mul0r.
+move/eqP; rewrite mulf_eq0 expf_eq0 (negbTE b0) andbF orbF zr_eq0 ZeqbP -lead_coefE lead_coef_eq0.
+by rewrite (negbTE Q0).
+Qed.
+
+(* G3: a * b is a root of ann_mul p q.  Extra hypothesis b <> 0: for q = c x^n (only root 0) the second operand of the
+   resultant is constant in t and MathComp's resultant_in_ideal does not apply; the reference multiplies only non-zero
+   numbers through ann_mul (rn_mul answers 0 directly when a factor is 0) *)
+Theorem ann_mul_root (p q : seq Z) (a b : R) : Poly p != 0 -> Poly q != 0 -> b != 0 ->
+  root (pr p) a -> root (pr q) b -> root (pr (ann_mul p q)) (a * b).
+Proof.
+move=> p0 q0 b0 ra rb; have [k Ek] := ann_mul_res p0 q0 (Bmul_neq0 q0).
+have Hb : (map_poly zr (Poly q)).[b] = 0 by apply/eqP.
+apply: pr_sign_res Ek _; apply: (@resultant_root _ zrm _ _ a).
+- exact: root_size_Poly ra.
+- exact: size_Bmul_gt1 Hb.
+- exact/eqP.
+by rewrite horner_ev_Bmul Hb mulr0.
+Qed.
+
+End AnnRoots2.
